@@ -9,6 +9,8 @@ use crate::prng::Rng;
 #[cfg(feature = "sodium")]
 pub mod c05;
 #[cfg(feature = "sodium")]
+pub mod c06;
+#[cfg(feature = "sodium")]
 pub mod c07;
 pub mod c08;
 #[cfg(feature = "sodium")]
@@ -18,6 +20,8 @@ pub fn dispatch(name: &str, cx: &mut Ctx) -> bool {
     match name {
         #[cfg(feature = "sodium")]
         "c05" => c05::run(cx),
+        #[cfg(feature = "sodium")]
+        "c06" => c06::run(cx),
         #[cfg(feature = "sodium")]
         "c07" => c07::run(cx),
         "c08" => c08::run(cx),
